@@ -287,7 +287,11 @@ create_1d_filter (int              width,
 
 	/* Normalize, with error diffusion */
 	p -= width;
-        total = 65536.0 / total;
+	/* If every sampled coefficient of this phase is 0 there is nothing
+	 * to scale (65536.0 / 0 would turn the phase into NaNs); keep the
+	 * zeros, the residual below makes the phase sum to 1.
+	 */
+        total = (total != 0.0) ? 65536.0 / total : 0.0;
         new_total = 0;
 	e = 0.0;
 	for (x = x1; x < x2; ++x)
